@@ -56,3 +56,8 @@ def base64DecoderOutCap : Nat := base64DecoderBufSize / base64DecoderOutDiv * ba
 
 item("maxEmbeddedSignatureDepth", "src/packet/signature/de.rs", r"const MAX_EMBEDDED_SIGNATURE_DEPTH: usize = (\d+);",
      "signature/de.rs MAX_EMBEDDED_SIGNATURE_DEPTH (nesting cap of Embedded Signature subpackets)")
+
+# ---- Message::check_trailing_data: ignored trailing packets are drained (D19e) -------------------
+flag("fixD19eTrailingPacketsDrained", "src/composed/message/types.rs",
+     r"fn check_trailing_data\(&mut self\) -> io::Result<\(\)> \{\s*fn check_next_packet.*?\| Tag::Experimental\(_\) => \{(?:(?!read_to_end)[\s\S])*?packet\.drain\(\)\?;(?:(?!read_to_end)[\s\S])*?_ => \{\s*return Err\(io::Error::new\(",
+     "D19e repaired: an ignored packet behind a message (Padding, Marker, unassigned non-critical, experimental) is drained through a fixed buffer instead of being collected in a Vec")
